@@ -224,7 +224,7 @@ def gen_case(rng, tier, index):
                 "opseed": rng.getrandbits(32)}
     vclass = rng.choice(["int", "quarter", "cent", "dirty"])
     wl = gen.gen_worklist_cfg(rng)
-    wl["max_volume"] = rng.choice([950, 200, 100, 50, 1000])
+    wl["max_volume"] = rng.choice([950, 200, 100, 50, 1000, 2.3, 333.3, 3.92, 12.7])
     wt = gen.gen_worktable(rng, vclass=vclass if vclass != "dirty" else "cent", limits=rng.choice(["loose", "loose", "wide"]),
                            need_trough=rng.random() < 0.6, small=True)
     if rng.random() < 0.12:
